@@ -254,3 +254,56 @@ def from_spk_bare_uncompressed_pubkey(cls: Const(CBitcoinAddress), scriptPubKey:
     option(witness_only=True)
     requires(scriptPubKey == b'\x41' + pk + b'\xac')
     ensures(typeis(result, P2PKHBitcoinAddress) and result == hash160(pk))
+
+
+# ---- chain selection history --------------------------------------------------------------------------------------
+from specs.bech32 import ref_bech32_decode
+
+
+def ref_valid_text(chain, s):
+    """the text is an address of `chain`: Base58Check with one of the chain's two version bytes, or a BIP173
+    version-0 address with the chain's prefix (reference codecs only)"""
+    c = CHAINS[chain]
+    try:
+        raw = b58dec(s)
+        if len(raw) >= 5 and _hl.sha256(_hl.sha256(raw[:-4]).digest()).digest()[:4] == raw[-4:] \
+                and raw[0] in (c['PUBKEY_ADDR'], c['SCRIPT_ADDR']):
+            return True
+    except Exception:
+        pass
+    r = ref_bech32_decode(c['HRP'], s)
+    return r is not None and r[0] == 0
+
+
+@contract('bitcoin.wallet:CBitcoinAddress.__new__', name='selection_history_irrelevant', prop=P)
+def selection_history_irrelevant(cls: Const(CBitcoinAddress), s: Str, *, history: Any):
+    """BOUNDED: whatever chains were selected before and whatever was parsed under them (the same text included),
+    under the chain selected now the text is accepted exactly when it is an address of THIS chain, and then
+    renders back to the same text"""
+    option(bounded=400, chains=True)
+    raises(CBitcoinAddressError, when=not ref_valid_text(CHAIN, s))
+    ensures(str(result) == s.lower() or str(result) == s)
+
+
+def _build_history(inputs, chain):
+    import bitcoin as _b
+    for other in inputs['history']:
+        _b.SelectParams(other)
+        try:
+            CBitcoinAddress(inputs['s'])
+        except Exception:
+            pass
+    _b.SelectParams(chain)
+    return {'cls': CBitcoinAddress, 's': inputs['s'], 'history': inputs['history']}
+
+
+_replay.BUILD_HOOKS['c12_history'] = _build_history
+
+
+def _gen_history(rng):
+    d = _gen_foreign(rng)
+    chains = list(CHAINS)
+    return {'__build__': 'c12_history', 's': d['s'], 'history': [rng.choice(chains) for _ in range(rng.randint(1, 3))]}
+
+
+_replay.GENERATORS['selection_history_irrelevant'] = _gen_history
